@@ -43,6 +43,14 @@ def main():
         done.append("TxnTable")
     except Exception as e:  # noqa: BLE001
         print(f"txntable: {e!r}")
+    try:
+        from extract import murmur
+        err = murmur.regenerate(repo, lean)
+        done.append("MurmurSrc" if err is None else "MurmurSrc(extraction failed)")
+        if err:
+            print(f"murmur: {err}")
+    except Exception as e:  # noqa: BLE001
+        print(f"murmur: {e!r}")
     print("regenerated:", ",".join(done))
 
 
